@@ -1414,3 +1414,597 @@ def explore(run, max_runs=400):
         for i in range(len(script), len(it.choices)):
             stack.append(it.choices[:i] + [not it.choices[i]])
     return out
+
+
+# =====================================================================================================================
+# Extended evaluator (clauses C02.k, C02.l, C02.m)
+#
+# The clauses about Message.decode, the route-checked resolver and the udp6 send-error path evaluate code that lives
+# outside the token manager: class methods that construct objects of the package (whose __init__ must run to know
+# what a constructor keyword means), coroutines, an async generator consumed by a single __anext__(), context
+# managers of the standard library, struct, contextvars and callbacks handed to the event loop.  XInterp adds
+# exactly these forms to the vocabulary, each with its Python meaning:
+#
+# * `evaluate_classes`: classes of the package whose instances are built by running __init__ (through the MRO,
+#   `super()` included; a base outside the package is an opaque call) and whose methods, properties and class
+#   attributes are looked up like Python does -- the baseline filter of the token-manager worlds (confirmed methods
+#   are opaque events) does not apply to them.  `self.__x` is name-mangled per defining class.
+# * calling an `async def` gives a coroutine object that runs when awaited; awaiting anything else hands the value
+#   through (the world's model of an awaitable library call returns the awaited result directly; an opaque
+#   individual gives an unknown result).
+# * calling a generator function gives a generator object.  `g.__anext__()` / `anext(g)` / `next(g)` run it to its
+#   FIRST yield (suspended there: `finally` blocks and context managers around the yield do not run), ending
+#   without a yield raises StopAsyncIteration / StopIteration as Python does; a second step is outside the
+#   vocabulary.  Iterating a generator object collects it eagerly.
+# * `with cm [as x]` over an opaque individual binds the individual itself (sockets, files and locks return
+#   themselves from __enter__) and lets exceptions of the body pass.
+# * struct.pack / unpack / Struct are computed by the checker's own struct module on constant arguments.
+# * contextvars.ContextVar / copy_context with the interpreter's current context (`context`, a plain mapping that a
+#   world snapshots when it models loop.call_soon and friends, as asyncio does).
+# * bare `raise` inside a handler, local imports of library modules, `del obj.attr`, `setattr`.
+# =====================================================================================================================
+
+class Coro:
+    def __init__(self, func, args, kwargs):
+        self.func, self.args, self.kwargs, self.done = func, list(args), dict(kwargs), False
+
+    def __repr__(self):
+        return "<coroutine %r>" % (self.func,)
+
+
+class Gen:
+    def __init__(self, func, args, kwargs, is_async):
+        self.func, self.args, self.kwargs, self.is_async, self.started = func, list(args), dict(kwargs), is_async, False
+
+    def __repr__(self):
+        return "<generator %r>" % (self.func,)
+
+
+class GenStep:
+    """The awaitable returned by agen.__anext__() / anext(agen[, default])."""
+    _none = object()
+
+    def __init__(self, gen, default=_none):
+        self.gen, self.default = gen, default
+
+
+class CtxVar:
+    _none = object()
+
+    def __init__(self, name, default=_none):
+        self.name, self.default = name, default
+
+    def __repr__(self):
+        return "<ContextVar %s>" % (self.name,)
+
+
+class CtxToken:
+    def __init__(self, var, had, old):
+        self.var, self.had, self.old = var, had, old
+
+
+class CtxSnap:
+    def __init__(self, mapping):
+        self.mapping = dict(mapping)
+
+
+class StructObj:
+    def __init__(self, fmt):
+        self.fmt = fmt
+
+
+class HostFunc:
+    """A callable supplied by the world: fn(interp, args, kwargs, node) -> value."""
+
+    def __init__(self, name, fn):
+        self.name, self.fn = name, fn
+
+    def __repr__(self):
+        return "<world function %s>" % self.name
+
+
+class SuperCall:
+    def __init__(self, frame):
+        self.frame = frame
+
+
+class SuperProxy:
+    def __init__(self, obj, after):
+        self.obj, self.after = obj, after
+
+
+class XMethod:
+    def __init__(self, recv, name):
+        self.recv, self.name = recv, name
+
+    def __repr__(self):
+        return "<method %s of %r>" % (self.name, self.recv)
+
+
+class _Yielded(Exception):
+    def __init__(self, value):
+        self.value = value
+
+
+_XEXTERNAL = {"struct.unpack": "struct.unpack", "struct.pack": "struct.pack", "struct.unpack_from": "struct.unpack_from",
+              "struct.calcsize": "struct.calcsize", "struct.Struct": "struct.Struct", "struct.pack_into": None,
+              "contextvars.ContextVar": "ContextVar", "contextvars.copy_context": "copy_context"}
+_XBUILTINS = {"super", "anext", "next", "setattr", "aiter"}
+_XMETHODS = {Gen: {"__anext__", "__aiter__", "__next__", "__iter__", "aclose", "close", "asend", "send"},
+             CtxVar: {"get", "set", "reset"}, CtxSnap: {"run"}, StructObj: {"unpack", "pack", "unpack_from"}}
+
+
+def _own_nodes(fn):
+    """Nodes of a function body without those of nested functions / lambdas / classes."""
+    todo = list(fn.body)
+    while todo:
+        n = todo.pop()
+        yield n
+        if isinstance(n, (ast.FunctionDef, ast.AsyncFunctionDef, ast.Lambda, ast.ClassDef)):
+            continue
+        todo.extend(ast.iter_child_nodes(n))
+
+
+class XInterp(Interp):
+    def __init__(self, prog, script=(), opaque_call=None, isa=None, max_steps=40000, evaluate_classes=()):
+        Interp.__init__(self, prog, script, opaque_call, isa, max_steps)
+        self.evaluate = set(evaluate_classes)
+        self.context = {}
+        self.handling = []
+
+    # -- names ---------------------------------------------------------------------------------------------------
+    def lookup(self, name, frame, node=None):
+        if name in _XBUILTINS:
+            f = frame
+            while f is not None:
+                if name in f.vars:
+                    return f.vars[name]
+                f = f.parent
+            m = frame.module
+            if not (m.name + "." + name in self.prog.funcs or name in m.imports or self.prog._module_defines(m, name)):
+                return SuperCall(frame) if name == "super" else Builtin(name)
+        return Interp.lookup(self, name, frame, node)
+
+    def global_ref(self, qn):
+        if _XEXTERNAL.get(qn) is not None:
+            return Builtin(_XEXTERNAL[qn])
+        return Interp.global_ref(self, qn)
+
+    def owner_class(self, fr):
+        """The class whose body lexically contains the code running in frame fr (for name mangling and super())."""
+        f = fr
+        while f is not None:
+            fn = getattr(f, "func", None)
+            if fn is not None and fn.qn is not None:
+                fi = self.prog.funcs.get(fn.qn)
+                if fi is not None and fi.cls is not None:
+                    return fi.cls.qn, f
+            f = f.parent
+        return None, None
+
+    def mangle(self, name, fr):
+        if name.startswith("__") and not name.endswith("__"):
+            cq, _f = self.owner_class(fr)
+            if cq is not None:
+                return "_%s%s" % (cq.rsplit(".", 1)[-1].lstrip("_"), name)
+        return name
+
+    # -- attribute access ------------------------------------------------------------------------------------------
+    def ev_Attribute(self, e, fr):
+        return self.getattr(self.ev(e.value, fr), self.mangle(e.attr, fr), e)
+
+    def evaluated_cls(self, v):
+        return isinstance(v, Obj) and v.cls is not None and v.cls in self.evaluate
+
+    def getattr(self, v, name, node=None):
+        if self.evaluated_cls(v):
+            if name in v.attrs:
+                return v.attrs[name]
+            fi = self.prog.lookup_method(v.cls, name)
+            if fi is not None:
+                decos = {chain(d) for d in fi.node.decorator_list}
+                if decos and decos <= {"property", "functools.cached_property", "cached_property"}:
+                    return self.call(Func(fi.node, fi.module, bound=[v], qn=fi.qn), [], {}, node)
+                return self.bind_method(fi, v)
+            e, ci = self.prog.class_attr(v.cls, name)
+            if e is not None:
+                return self.ev(e, Frame(ci.module))
+            child = Obj(v.name + "." + name, known=False, parent=v, attr=name)
+            v.attrs[name] = child
+            return child
+        if isinstance(v, SuperProxy):
+            cls = v.obj.cls if isinstance(v.obj, Obj) else v.obj.qn if isinstance(v.obj, ClassRef) else None
+            if cls is None:
+                self.refuse("super() on %r" % (v.obj,), node)
+            mro = self.prog.mro(cls)
+            if v.after not in mro:
+                self.refuse("super(): %s is not among the ancestors of %s" % (v.after, cls), node)
+            for q in mro[mro.index(v.after) + 1:]:
+                if q in self.prog.classes:
+                    ci = self.prog.classes[q]
+                    if name in ci.methods:
+                        if isinstance(v.obj, Obj):
+                            return self.bind_method(ci.methods[name], v.obj)
+                        return self.bind_method(ci.methods[name], None, cls=v.obj)
+                else:
+                    # a base class outside the package: what its method does is not modelled, the call is an event
+                    return Obj("ext:%s.%s" % (q, name), known=True)
+            return HostFunc("object.%s" % name, lambda it, a, k, n: None)
+        if isinstance(v, Builtin) and (v.name, name) == ("int", "from_bytes"):
+            def from_bytes(it, a, k, n):
+                if not all(isinstance(x, NATIVE) and x is not None for x in list(a) + list(k.values())):
+                    it.refuse("int.from_bytes on non-constant arguments", n)
+                try:
+                    return int.from_bytes(*a, **k)
+                except Exception:
+                    it.refuse("int.from_bytes fails", n)
+            return HostFunc("int.from_bytes", from_bytes)
+        for t, names in _XMETHODS.items():
+            if isinstance(v, t):
+                if isinstance(v, StructObj) and name == "size":
+                    import struct
+                    return struct.calcsize(v.fmt)
+                if isinstance(v, StructObj) and name == "format":
+                    return v.fmt
+                if isinstance(v, CtxVar) and name == "name":
+                    return v.name
+                if name in names:
+                    return XMethod(v, name)
+                self.refuse("attribute %s of %r" % (name, v), node)
+        return Interp.getattr(self, v, name, node)
+
+    def assign(self, t, v, fr):
+        if isinstance(t, ast.Attribute):
+            self.setattr(self.ev(t.value, fr), self.mangle(t.attr, fr), v, t)
+            return
+        Interp.assign(self, t, v, fr)
+
+    def ex_Delete(self, st, fr):
+        for t in st.targets:
+            if isinstance(t, ast.Attribute):
+                o = self.ev(t.value, fr)
+                name = self.mangle(t.attr, fr)
+                if not isinstance(o, Obj):
+                    self.refuse("del of an attribute of %r" % (o,), st)
+                if name not in o.attrs and o.known and self.evaluated_cls(o):
+                    raise Raised(self.new_exc("AttributeError"), st)
+                o.attrs.pop(name, None)
+                self.events.append(Event("delattr", obj=o, attr=name, node=st))
+            else:
+                one = ast.copy_location(ast.Delete(targets=[t]), st)
+                Interp.ex_Delete(self, one, fr)
+
+    # -- calls -----------------------------------------------------------------------------------------------------------
+    def call(self, f, args, kwargs=None, node=None):
+        kwargs = kwargs or {}
+        if isinstance(f, HostFunc):
+            return f.fn(self, list(args), dict(kwargs), node)
+        if isinstance(f, SuperCall):
+            if args or kwargs:
+                self.refuse("super() with arguments", node)
+            cq, mf = self.owner_class(f.frame)
+            if cq is None:
+                self.refuse("super() outside a method", node)
+            a = mf.func.node.args
+            first = (a.posonlyargs + a.args)[:1]
+            if not first or first[0].arg not in mf.vars:
+                self.refuse("super() in a method without a receiver", node)
+            return SuperProxy(mf.vars[first[0].arg], cq)
+        if isinstance(f, ClassRef) and f.qn in self.evaluate:
+            return self.instantiate(f.qn, list(args), dict(kwargs), node)
+        if isinstance(f, XMethod):
+            return self.call_xmethod(f, list(args), dict(kwargs), node)
+        return Interp.call(self, f, args, kwargs, node)
+
+    def instantiate(self, qn, args, kwargs, node=None):
+        o = self.fresh("new:" + qn, known=True, cls=qn)
+        self.events.append(Event("new", cls=qn, obj=o, args=list(args), kwargs=dict(kwargs), node=node, evaluated=True))
+        init = self.prog.lookup_method(qn, "__init__")
+        if init is not None:
+            self.run_func(Func(init.node, init.module, qn=init.qn), [o] + list(args), dict(kwargs), node)
+        return o
+
+    def call_func(self, f, args, kwargs, node):
+        fn = f.node
+        if not isinstance(fn, ast.Lambda):
+            is_async = isinstance(fn, ast.AsyncFunctionDef)
+            if any(isinstance(n, (ast.Yield, ast.YieldFrom)) for n in _own_nodes(fn)):
+                return Gen(f, list(f.bound or []) + list(args), kwargs, is_async)
+            if is_async:
+                return Coro(f, list(f.bound or []) + list(args), kwargs)
+        return self.run_func(f, list(f.bound or []) + list(args), kwargs, node)
+
+    def run_func(self, f, args, kwargs, node, gen=None):
+        """Interp.call_func with the frame remembering its function (name mangling, super()) and generator mode;
+        `args` already contains the bound receiver."""
+        fn = f.node
+        self.depth += 1
+        if self.depth > 40:
+            self.refuse("call depth", node)
+        try:
+            fr = Frame(f.module, parent=f.closure, fnode=fn)
+            fr.func = f
+            fr.gen = gen
+            if f.closure is None and not f.defaults and not f.kwdefaults and (fn.args.defaults or any(d is not None for d in fn.args.kw_defaults)):
+                mf = Frame(f.module)
+                mf.func = f  # defaults of a method are evaluated in the class body: same mangling
+                f.defaults = [self.ev(d, mf) for d in fn.args.defaults]
+                f.kwdefaults = {a.arg: self.ev(d, mf) for a, d in zip(fn.args.kwonlyargs, fn.args.kw_defaults) if d is not None}
+            unbound = Func(f.node, f.module, closure=f.closure, defaults=f.defaults, kwdefaults=f.kwdefaults, qn=f.qn)
+            self.bind_args(unbound, list(args), kwargs, fr, node)
+            if isinstance(fn, ast.Lambda):
+                return self.ev(fn.body, fr)
+            try:
+                self.exec_block(fn.body, fr)
+            except _Return as r:
+                return r.value
+            return None
+        finally:
+            self.depth -= 1
+
+    def gen_frame(self, fr):
+        f = fr
+        while f is not None and getattr(f, "comp", False):
+            f = f.parent
+        return f
+
+    def ev_Yield(self, e, fr):
+        v = self.ev(e.value, fr) if e.value is not None else None
+        g = self.gen_frame(fr)
+        mode = getattr(g, "gen", None)
+        if mode is None:
+            self.refuse("yield outside a generator run", e)
+        if mode[0] == "first":
+            raise _Yielded(v)
+        mode[1].append(v)
+        return None
+
+    def ev_YieldFrom(self, e, fr):
+        self.refuse("yield from", e)
+
+    def gen_first(self, gen, node=None):
+        """Run a fresh generator object to its first yield."""
+        if gen.started:
+            self.refuse("a generator is resumed a second time", node)
+        gen.started = True
+        try:
+            self.run_func(gen.func, gen.args, gen.kwargs, node, gen=("first", None))
+        except _Yielded as y:
+            return y.value
+        raise Raised(self.new_exc("StopAsyncIteration" if gen.is_async else "StopIteration"), node)
+
+    def gen_collect(self, gen, node=None):
+        if gen.started:
+            self.refuse("a generator is resumed a second time", node)
+        gen.started = True
+        items = []
+        try:
+            self.run_func(gen.func, gen.args, gen.kwargs, node, gen=("collect", items))
+        except Raised as r:
+            return items, r
+        return items, None
+
+    def iterate(self, v, node=None):
+        if isinstance(v, Gen):
+            items, r = self.gen_collect(v, node)
+            for x in items:
+                yield x
+            if r is not None:
+                raise r
+            return
+        for x in Interp.iterate(self, v, node):
+            yield x
+
+    def await_value(self, v, node=None):
+        if isinstance(v, Coro):
+            if v.done:
+                raise Raised(self.new_exc("RuntimeError"), node)
+            v.done = True
+            return self.run_func(v.func, v.args, v.kwargs, node)
+        if isinstance(v, GenStep):
+            if v.default is GenStep._none:
+                return self.gen_first(v.gen, node)
+            try:
+                return self.gen_first(v.gen, node)
+            except Raised as r:
+                if r.exc.cls in ("StopAsyncIteration", "StopIteration"):
+                    return v.default
+                raise
+        if isinstance(v, Obj):
+            self.events.append(Event("await", obj=v, node=node))
+            return self.fresh("result of awaiting %s" % v.name)
+        return v
+
+    def ev_Await(self, e, fr):
+        return self.await_value(self.ev(e.value, fr), e)
+
+    def call_xmethod(self, m, args, kwargs, node):
+        r, name, n = m.recv, m.name, len(args)
+        if isinstance(r, Gen):
+            if name in ("__aiter__", "__iter__") and n == 0:
+                return r
+            if name == "__anext__" and n == 0 and r.is_async:
+                return GenStep(r)
+            if name == "__next__" and n == 0 and not r.is_async:
+                return self.gen_first(r, node)
+            if name in ("aclose", "close") and n == 0:
+                r.started = True
+                return None
+        if isinstance(r, CtxVar):
+            if name == "get" and n <= 1 and not kwargs:
+                if r in self.context:
+                    return self.context[r]
+                if n == 1:
+                    return args[0]
+                if r.default is not CtxVar._none:
+                    return r.default
+                raise Raised(self.new_exc("LookupError"), node)
+            if name == "set" and n == 1 and not kwargs:
+                tok = CtxToken(r, r in self.context, self.context.get(r))
+                self.context[r] = args[0]
+                self.events.append(Event("ctxset", var=r, value=args[0], node=node))
+                return tok
+            if name == "reset" and n == 1 and isinstance(args[0], CtxToken) and args[0].var is r:
+                if args[0].had:
+                    self.context[r] = args[0].old
+                else:
+                    self.context.pop(r, None)
+                return None
+        if isinstance(r, CtxSnap):
+            if name == "run" and n >= 1:
+                return self.run_in_context(r.mapping, args[0], args[1:], kwargs, node, keep=r)
+        if isinstance(r, StructObj):
+            return self.struct_call(name, [r.fmt] + args, kwargs, node)
+        self.refuse("method %s/%d of %r" % (name, n, r), node)
+
+    def run_in_context(self, mapping, f, args=(), kwargs=None, node=None, keep=None):
+        """Call f with `mapping` as the current context (Context.run / a callback scheduled by the loop)."""
+        saved = self.context
+        self.context = dict(mapping)
+        try:
+            return self.call(f, list(args), kwargs or {}, node)
+        finally:
+            if keep is not None:
+                keep.mapping = dict(self.context)
+            self.context = saved
+
+    def struct_call(self, name, args, kwargs, node):
+        import struct
+        if kwargs or not args or not isinstance(args[0], (str, bytes)) or not all(isinstance(a, NATIVE) and a is not None for a in args):
+            self.refuse("struct.%s on non-constant arguments" % name, node)
+        try:
+            r = getattr(struct, name)(*args)
+        except struct.error:
+            raise Raised(self.new_exc("struct.error"), node)
+        except Exception:
+            self.refuse("struct.%s fails" % name, node)
+        return r
+
+    def call_builtin(self, name, args, kwargs, node):
+        n = len(args)
+        if name.startswith("struct."):
+            short = name.split(".", 1)[1]
+            if short == "Struct":
+                if n != 1 or kwargs or not isinstance(args[0], (str, bytes)):
+                    self.refuse("struct.Struct on a non-constant format", node)
+                self.struct_call("calcsize", [args[0]], {}, node)
+                return StructObj(args[0])
+            return self.struct_call(short, list(args), kwargs, node)
+        if name == "ContextVar":
+            if n != 1 or set(kwargs) - {"default"}:
+                raise Raised(self.new_exc("TypeError"), node)
+            return CtxVar(args[0], kwargs["default"]) if "default" in kwargs else CtxVar(args[0])
+        if name == "copy_context" and n == 0 and not kwargs:
+            return CtxSnap(self.context)
+        if name == "anext" and n in (1, 2) and not kwargs and isinstance(args[0], Gen) and args[0].is_async:
+            return GenStep(args[0]) if n == 1 else GenStep(args[0], args[1])
+        if name == "next" and n in (1, 2) and not kwargs and isinstance(args[0], Gen) and not args[0].is_async:
+            try:
+                return self.gen_first(args[0], node)
+            except Raised as r:
+                if n == 2 and r.exc.cls == "StopIteration":
+                    return args[1]
+                raise
+        if name in ("aiter", "iter") and n == 1 and isinstance(args[0], Gen):
+            return args[0]
+        if name == "setattr" and n == 3 and not kwargs and isinstance(args[1], str):
+            self.setattr(args[0], args[1], args[2], node)
+            return None
+        if name in _XBUILTINS:
+            self.refuse("builtin %s/%d" % (name, n), node)
+        return Interp.call_builtin(self, name, args, kwargs, node)
+
+    # -- statements ---------------------------------------------------------------------------------------------------
+    def ex_Import(self, st, fr):
+        for a in st.names:
+            if a.name.split(".")[0] == "aiocoap":
+                self.refuse("local import of a package module", st)
+            fr.vars[a.asname or a.name.split(".")[0]] = ModuleRef(a.name if a.asname else a.name.split(".")[0])
+
+    def ex_ImportFrom(self, st, fr):
+        if st.level or (st.module or "").split(".")[0] == "aiocoap":
+            self.refuse("local import of a package module", st)
+        for a in st.names:
+            fr.vars[a.asname or a.name] = self.global_ref("%s.%s" % (st.module, a.name))
+
+    def ex_Try(self, st, fr):
+        suspended = False
+        try:
+            try:
+                self.exec_block(st.body, fr)
+            except Raised as r:
+                for h in st.handlers:
+                    if h.type is None or self.exc_matches(r.exc, self.ev(h.type, fr), h):
+                        if h.name:
+                            fr.vars[h.name] = r.exc
+                        self.handling.append(r)
+                        try:
+                            self.exec_block(h.body, fr)
+                        finally:
+                            self.handling.pop()
+                        break
+                else:
+                    raise
+            else:
+                self.exec_block(st.orelse, fr)
+        except _Yielded:
+            suspended = True  # the generator is suspended inside the statement: its finally block has not run
+            raise
+        finally:
+            if st.finalbody and not suspended:
+                self.exec_block(st.finalbody, fr)
+
+    def ex_Raise(self, st, fr):
+        if st.exc is None:
+            if not self.handling:
+                raise Raised(self.new_exc("RuntimeError"), st)
+            raise Raised(self.handling[-1].exc, st)
+        Interp.ex_Raise(self, st, fr)
+
+    def ex_With(self, st, fr):
+        def enter(i):
+            if i == len(st.items):
+                self.exec_block(st.body, fr)
+                return
+            item = st.items[i]
+            cm = self.ev(item.context_expr, fr)
+            if isinstance(cm, Suppress):
+                if item.optional_vars is not None:
+                    self.assign(item.optional_vars, None, fr)
+                try:
+                    enter(i + 1)
+                except Raised as r:
+                    if not self.exc_matches(r.exc, cm.classes, st):
+                        raise
+                return
+            if not isinstance(cm, Obj):
+                self.refuse("with statement over %r" % (cm,), st)
+            if self.evaluated_cls(cm):
+                self.refuse("with statement over an evaluated object", st)
+            # an opaque manager of a library: __enter__ hands back the manager itself (sockets, files, locks),
+            # __exit__ lets exceptions pass
+            self.events.append(Event("enter", obj=cm, node=st))
+            if item.optional_vars is not None:
+                self.assign(item.optional_vars, cm, fr)
+            try:
+                enter(i + 1)
+            except _Yielded:
+                raise
+            finally:
+                self.events.append(Event("exit", obj=cm, node=st))
+        enter(0)
+
+    ex_AsyncWith = ex_With
+    ex_AsyncFor = Interp.ex_For
+
+    # -- entry ------------------------------------------------------------------------------------------------------------
+    def run(self, thunk):
+        """-> ("return", value) | ("raise", exception individual, raising node)"""
+        try:
+            return ("return", thunk(), None)
+        except Raised as r:
+            return ("raise", r.exc, r.node)
+        except (_Break, _Continue):
+            self.refuse("loop control outside a loop")
+        except _Yielded:
+            self.refuse("yield outside a generator run")
